@@ -33,7 +33,8 @@ import mypy.ipc  # noqa: F401
 from mc.kernel import run_isolated
 
 BASE_TIME = 1_600_000_000
-WAIT = 120.0  # generous: only bounds waiting for things that must happen anyway
+WAIT = 180.0  # generous: only bounds waiting for things that must happen anyway
+POLL = 10.0  # while waiting for a reply, how often to look whether the daemon is working or blocked
 FILES = ["a.py", "b.py"]
 
 # --------------------------------------------------------------------------- the program under check
@@ -260,6 +261,30 @@ class Daemon:
             time.sleep(0.001)
         return self.exit_status
 
+    def cpu_ticks(self) -> tuple[str, int] | None:
+        """(scheduler state, utime+stime) of the daemon process, None if it is gone."""
+        try:
+            with open(f"/proc/{self.pid}/stat") as f:
+                rest = f.read().rsplit(")", 1)[1].split()
+            return rest[0], int(rest[11]) + int(rest[12])
+        except (OSError, IndexError, ValueError):
+            return None
+
+    def wait_exit_unless_idle(self) -> int | None:
+        """Wait for the process to end; give up early (None) when it demonstrably is not going to:
+        sleeping with no CPU used between two looks POLL seconds apart."""
+        last = None
+        total = 0.0
+        while total < WAIT:
+            if self.wait_exit(POLL) is not None:
+                return self.exit_status
+            total += POLL
+            cur = self.cpu_ticks()
+            if cur is not None and cur == last and cur[0] in "SD":
+                return None
+            last = cur
+        return None
+
     def accepts(self) -> int:
         try:
             return os.path.getsize(self.accepts_path)
@@ -327,24 +352,53 @@ def wire(req: Any) -> bytes:
     return frame(json.dumps(req).encode("utf-8"))
 
 
-def rpc(name: str, req: dict[str, Any]) -> dict[str, Any]:
-    """Well-behaved client: real IPCClient + dmypy_util.send/receive, like client.request()."""
+class Blocked(Exception):
+    """The daemon sits idle (sleeping, no CPU used between two polls) while a client that has sent
+    its complete request - and said so by half-closing - waits for the reply."""
+
+
+def _await_reply(d: "Daemon", fn: Any) -> Any:
+    """Run the blocking receive `fn` (socket timeout POLL), retrying while the daemon is busy."""
+    waited = 0.0
+    last = None
+    while True:
+        try:
+            return fn()
+        except TimeoutError:
+            waited += POLL
+            cur = d.cpu_ticks()
+            if cur is not None and cur == last and cur[0] in "SD":
+                raise Blocked() from None
+            last = cur
+            if waited >= WAIT:
+                raise
+
+
+def rpc(d: "Daemon", req: dict[str, Any]) -> dict[str, Any]:
+    """Well-behaved client: real IPCClient + dmypy_util.send/receive, like client.request().
+
+    One addition: after sending its request the client half-closes (SHUT_WR).  The protocol is one
+    request per connection, so this changes nothing for a daemon that reads the frame it was sent,
+    but a daemon that waits for bytes that will never come sees EOF instead of dead-locking with us.
+    """
     from mypy.dmypy_util import receive, send
     from mypy.ipc import IPCClient, IPCException
 
     try:
-        client = IPCClient(name, None)  # blocking connect (AF_UNIX connect with a timeout EAGAINs on a full backlog)
+        # blocking connect (an AF_UNIX connect under a socket timeout fails with EAGAIN on a full backlog)
+        client = IPCClient(d.sock_name, None)
     except (ConnectionRefusedError, FileNotFoundError) as e:
         raise Gone(str(e)) from e
     out: dict[str, Any] = {}
     with client:
-        client.connection.settimeout(WAIT)
+        client.connection.settimeout(POLL)
         try:
             send(client, req)
+            client.connection.shutdown(socket.SHUT_WR)
             final = False
             extra_out: list[str] = []
             while not final:
-                resp = receive(client)
+                resp = _await_reply(d, lambda: receive(client))
                 final = bool(resp.pop("final", False))
                 for key in ("stdout", "stderr"):
                     v = resp.pop(key, None)
@@ -353,6 +407,8 @@ def rpc(name: str, req: dict[str, Any]) -> dict[str, Any]:
                 out = resp
             if extra_out:
                 out["_daemon_output"] = "".join(extra_out)
+        except Blocked:
+            return {"_noreply": "blocked"}
         except TimeoutError:
             return {"_noreply": "timeout"}
         except (OSError, IPCException) as e:
@@ -360,18 +416,18 @@ def rpc(name: str, req: dict[str, Any]) -> dict[str, Any]:
     return out
 
 
-def raw(name: str, data: bytes, read_reply: bool) -> dict[str, Any]:
-    """Misbehaving client on a raw socket: send exactly `data`, then either close at once or wait
-    for whatever the daemon answers (reply frame, or EOF when the daemon drops us)."""
+def raw(d: "Daemon", data: bytes, read_reply: bool) -> dict[str, Any]:
+    """Misbehaving client on a raw socket: send exactly `data`, then either close at once or
+    (half-close and) wait for whatever the daemon answers: a reply, or EOF when it drops us."""
     from mypy.ipc import IPCBase
 
     s = socket.socket(socket.AF_UNIX, socket.SOCK_STREAM)
     try:
         try:
-            s.connect(name)
+            s.connect(d.sock_name)
         except (ConnectionRefusedError, FileNotFoundError) as e:
             raise Gone(str(e)) from e
-        s.settimeout(WAIT)
+        s.settimeout(POLL)
         try:
             if data:
                 s.sendall(data)
@@ -379,13 +435,14 @@ def raw(name: str, data: bytes, read_reply: bool) -> dict[str, Any]:
             return {"_noreply": f"send failed: {type(e).__name__}"}
         if not read_reply:
             return {"_closed": True}
-        conn = IPCBase("c16-raw", WAIT)
+        conn = IPCBase("c16-raw", POLL)
         conn.connection = s
         out: dict[str, Any] = {}
         try:
+            s.shutdown(socket.SHUT_WR)
             final = False
             while not final:
-                b = conn.read_bytes()
+                b = _await_reply(d, conn.read_bytes)
                 if not b:
                     return {"_noreply": "EOF"}
                 resp = json.loads(b.decode("utf-8"))
@@ -393,6 +450,8 @@ def raw(name: str, data: bytes, read_reply: bool) -> dict[str, Any]:
                 resp.pop("stdout", None)
                 resp.pop("stderr", None)
                 out = resp
+        except Blocked:
+            return {"_noreply": "blocked"}
         except TimeoutError:
             return {"_noreply": "timeout"}
         except OSError as e:
@@ -422,6 +481,11 @@ MALFORMED: dict[str, tuple[bytes, str]] = {
     "status-missing-tty": (wire({"command": "status"}), "known command `status` without is_tty/terminal_width"),
     "stop-extra-arg": (wire(_request("stop", bogus=1)), "known command `stop` with an unexpected argument"),
 }
+# a complete, valid request followed by bytes that do not belong to it (read the reply, close)
+TRAILING: dict[str, tuple[bytes, str]] = {
+    "status+stray": (wire(REQ_STATUS) + b"xx", "valid status request followed by 2 stray bytes"),
+    "status+check": (wire(REQ_STATUS) + wire(REQ_CHECK), "valid status request followed by a second request (check) in the same connection"),
+}
 WRONG_ARGS = {"status-extra-arg", "check-missing-args", "status-missing-tty", "stop-extra-arg"}
 
 
@@ -446,6 +510,7 @@ def full_alphabet() -> list[str]:
     a += [f"close@{k}" for k in range(1, len(PARTIAL_OF))]
     a += list(MALFORMED)
     a += ["oversized-header", "status-noread", "check-noread"]
+    a += list(TRAILING)
     return a
 
 
@@ -459,37 +524,39 @@ def reduced_alphabet() -> list[str]:
     a += ["non-utf8", "non-json", "json-list", "no-command", "command-int", "unknown-command",
           "status-extra-arg", "check-missing-args"]
     a += ["oversized-header", "status-noread", "check-noread"]
+    a += list(TRAILING)
     return a
 
 
 def do_step(d: Daemon, label: str) -> dict[str, Any]:
     """Execute one client behaviour against the daemon; returns what the client saw."""
-    n = d.sock_name
     if label == "status":
-        return rpc(n, REQ_STATUS)
+        return rpc(d, REQ_STATUS)
     if label == "check":
-        return rpc(n, REQ_CHECK)
+        return rpc(d, REQ_CHECK)
     if label == "recheck":
-        return rpc(n, REQ_RECHECK)
+        return rpc(d, REQ_RECHECK)
     if label == "stop":
-        return rpc(n, REQ_STOP)
+        return rpc(d, REQ_STOP)
     if label.startswith("edit-"):
         e = label[5:].split("+")[0]
         fn, text = EDITS[e]
         d.write_file(fn, text)
-        return rpc(n, REQ_CHECK)
+        return rpc(d, REQ_CHECK)
     if label == "connect-close":
-        return raw(n, b"", read_reply=False)
+        return raw(d, b"", read_reply=False)
     if label.startswith("close@"):
-        return raw(n, PARTIAL_OF[: int(label[6:])], read_reply=False)
+        return raw(d, PARTIAL_OF[: int(label[6:])], read_reply=False)
     if label in MALFORMED:
-        return raw(n, MALFORMED[label][0], read_reply=True)
+        return raw(d, MALFORMED[label][0], read_reply=True)
+    if label in TRAILING:
+        return raw(d, TRAILING[label][0], read_reply=True)
     if label == "oversized-header":
-        return raw(n, OVERSIZED, read_reply=False)
+        return raw(d, OVERSIZED, read_reply=False)
     if label == "status-noread":
-        return raw(n, wire(REQ_STATUS), read_reply=False)
+        return raw(d, wire(REQ_STATUS), read_reply=False)
     if label == "check-noread":
-        return raw(n, wire(REQ_CHECK), read_reply=False)
+        return raw(d, wire(REQ_CHECK), read_reply=False)
     raise ValueError(label)
 
 
@@ -534,6 +601,24 @@ def _exc_type(cause: str) -> str:
     return head.split(":", 1)[0].strip() if head else "?"
 
 
+def exit_signature(parts: dict[str, Any], intrinsic: set[tuple[str, str]] | None) -> str:
+    """Cause-level signature of a daemon exit.
+
+    `intrinsic` = (behaviour, exception type) pairs with which a behaviour makes the daemon exit
+    all by itself, as MEASURED by the length-1 sequences of the same run (None = not known yet:
+    provisional signature).  A daemon
+    that dies while serving a behaviour that is harmless on its own died of what came before:
+    bytes left behind by the previous connection, if that one sent more than its request."""
+    killer, prev, exc = parts["killer"], parts["prev"], parts["exc"]
+    if intrinsic is not None and (killer, exc) in intrinsic:
+        return f"daemon-exits|{kind_of(killer)}|{exc}"
+    if prev in TRAILING:
+        return f"daemon-exits|next-client-after:{prev}|{exc}"
+    if killer in WELL_FORMED:
+        return f"daemon-exits|well-formed-request-after:{parts['faults']}|{exc}"
+    return f"daemon-exits|{kind_of(killer)}|{exc}"
+
+
 def run_sequence(seq: tuple[str, ...], work: str, memo_dir: str, final: str = "stop") -> dict[str, Any]:
     """Start a fresh daemon, play `seq`, then the probe status -> edit -> check, then stop.
 
@@ -545,6 +630,18 @@ def run_sequence(seq: tuple[str, ...], work: str, memo_dir: str, final: str = "s
     viol = out["violations"]
     initialised = False  # daemon has done a successful first check (has a fine-grained manager)
     conn_labels: list[str] = []  # one entry per connection made, in order
+    conn_extra: list[bool] = []  # True for connections made only to find out whether the daemon lives
+
+    def faults_before(n: int) -> str:
+        """Kinds of the misbehaviours among the first n connections (cause context for signatures)."""
+        return "+".join(sorted({kind_of(x) for x in conn_labels[:n] if x not in WELL_FORMED})) or "no-fault"
+
+    def ctx(i: int) -> str:
+        """Cause context of something going wrong on connection i (0-based): when the connection
+        right before it left bytes behind, that is the cause; otherwise name all earlier faults."""
+        if i > 0 and conn_labels[i - 1] in TRAILING:
+            return f"next-client-after:{conn_labels[i - 1]}"
+        return "after:" + faults_before(i)
 
     def state() -> tuple:
         return ("alive" if d.exit_status is None else "dead", initialised, tree_key(d.proj))
@@ -557,9 +654,8 @@ def run_sequence(seq: tuple[str, ...], work: str, memo_dir: str, final: str = "s
         ok = sorted(got) == sorted(ref["messages"])
         status_ok = (reply.get("status", None) != 0) == bool(ref["messages"])
         if not (ok and status_ok):
-            faults = sorted({kind_of(x) for x in conn_labels[:-1] if x not in WELL_FORMED})
             viol.append({
-                "signature": "wrong-check-result|after:" + ("+".join(faults) or "no-fault"),
+                "signature": "wrong-check-result|" + ctx(len(conn_labels) - 1),
                 "what": f"after {list(seq)} the daemon's `{label}` says {got[:3]} (status {reply.get('status')}); "
                         f"a cold run on the same files says {ref['messages'][:3]}",
                 "detail": {"seq": list(seq), "at": label, "daemon": got, "cold": ref["messages"],
@@ -577,11 +673,16 @@ def run_sequence(seq: tuple[str, ...], work: str, memo_dir: str, final: str = "s
         killer = conn_labels[acc - 1] if 0 < acc <= len(conn_labels) else "?"
         cause = _cause_from_log(d.log())
         out["killer"] = killer
+        out["killer_exc"] = _exc_type(cause)
         out["cause"] = cause
+        parts = {"killer": killer, "prev": conn_labels[acc - 2] if acc > 1 else None, "exc": _exc_type(cause),
+                 "faults": faults_before(max(acc - 1, 0))}
+        sig = exit_signature(parts, None)
         viol.append({
-            "signature": f"daemon-exits|{kind_of(killer)}|{_exc_type(cause)}",
+            "signature": sig,
             "what": f"client behaviour `{killer}` ({describe(killer)}) makes the daemon exit ({d.exit_desc()}): {cause}; "
                     f"sequence {list(seq)} + probe",
+            "sig_parts": parts,
             "detail": {"seq": list(seq), "killer": killer, "killer_connection": acc, "noticed_at": at,
                        "cause": cause, "exit": d.exit_desc(), "log_tail": d.log()[-1500:]},
         })
@@ -598,12 +699,14 @@ def run_sequence(seq: tuple[str, ...], work: str, memo_dir: str, final: str = "s
         plan = [(lab, "seq") for lab in seq] + [("status", "probe"), ("edit-probe+check", "probe")]
         alive = True
 
-        def step(label: str) -> dict[str, Any]:
+        def step(label: str, extra: bool = False) -> dict[str, Any]:
             conn_labels.append(label)
+            conn_extra.append(extra)
             try:
                 r = do_step(d, label)
             except Gone:
                 conn_labels.pop()
+                conn_extra.pop()
                 raise
             out["steps"] += 1
             out["outcomes"].append(_outcome(label, r))
@@ -616,7 +719,7 @@ def run_sequence(seq: tuple[str, ...], work: str, memo_dir: str, final: str = "s
                 if d.poll_exit() is not None:
                     return "dead"
                 try:
-                    r = step("status")
+                    r = step("status", extra=True)
                 except Gone:
                     return "dead"
                 if "_noreply" not in r:
@@ -632,15 +735,36 @@ def run_sequence(seq: tuple[str, ...], work: str, memo_dir: str, final: str = "s
                 alive = False
                 break
             if reply.get("_noreply") == "timeout":
-                out["harness_errors"].append(f"{list(seq)}: no reply to `{label}` within {WAIT}s")
+                out["harness_errors"].append(f"{list(seq)}: no reply to `{label}` within {WAIT}s (daemon busy)")
                 alive = False
                 break
+            if reply.get("_noreply") == "blocked":
+                viol.append({
+                    "signature": f"daemon-unresponsive|{kind_of(label) if label not in WELL_FORMED else 'well-formed-request'}"
+                                 f"|{ctx(len(conn_labels) - 1)}",
+                    "what": f"`{label}` sent completely, daemon alive but idle and never answers; sequence {list(seq)} + probe",
+                    "detail": {"seq": list(seq), "at": label, "daemon_state": d.cpu_ticks()},
+                })
+                out["blocked"] = True
+                alive = False
+                break
+            vi = len(conn_labels) - 1  # index of this step's connection
             if label in WELL_FORMED:
                 if "_noreply" in reply:
                     # a well-formed request went unanswered: either the daemon is dying or it dropped us
                     how = settle()
+                    if how == "alive" and vi > 0 and conn_labels[vi - 1] in TRAILING:
+                        # served with the previous connection's left-over request and hung up on,
+                        # possibly before we had sent ours: same cause as a mismatched reply
+                        out["outcomes"][vi] = f"{kind_of(label)}:mismatched-reply"
+                        viol.append({"signature": f"reply-mismatch|{ctx(vi)}",
+                                     "what": f"`{label}` was answered with the reply to a different request (connection closed on "
+                                             f"us: {reply['_noreply']}); sequence {list(seq)} + probe",
+                                     "detail": {"seq": list(seq), "at": label}})
+                        out["states"].append(state())
+                        continue
                     if how == "alive":
-                        viol.append({"signature": f"request-dropped|{kind_of(label)}",
+                        viol.append({"signature": f"request-dropped|{kind_of(label)}|{ctx(vi)}",
                                      "what": f"well-formed `{label}` got no reply ({reply['_noreply']}) although the daemon lives on",
                                      "detail": {"seq": list(seq), "at": label}})
                         out["states"].append(state())
@@ -651,16 +775,25 @@ def run_sequence(seq: tuple[str, ...], work: str, memo_dir: str, final: str = "s
                         dead_report(label)
                     alive = False
                     break
+                if (label == "status" and "out" in reply) or (label != "status" and "error" not in reply and "out" not in reply):
+                    out["outcomes"][vi] = f"{kind_of(label)}:mismatched-reply"
+                    viol.append({"signature": f"reply-mismatch|{ctx(vi)}",
+                                 "what": f"`{label}` was answered with the reply to a different request (keys {sorted(reply)}); "
+                                         f"sequence {list(seq)} + probe",
+                                 "detail": {"seq": list(seq), "at": label, "reply_keys": sorted(reply)}})
+                    out["states"].append(state())
+                    continue
                 if label == "status" and "error" in reply:
-                    viol.append({"signature": "status-error", "what": f"status answered with error {reply['error'][:200]}",
-                                 "detail": {"seq": list(seq)}})
+                    viol.append({"signature": f"status-error-reply|{ctx(vi)}",
+                                 "what": f"well-formed status answered with error {str(reply['error'])[:200]!r}; sequence {list(seq)} + probe",
+                                 "detail": {"seq": list(seq), "reply": reply}})
                 if label in ("check", "recheck") or label.startswith("edit-"):
                     err = str(reply.get("error", ""))
                     if label == "recheck" and "only valid after a 'check'" in err:
                         pass  # the daemon has not checked anything yet and says so
                     elif "error" in reply:
-                        viol.append({"signature": f"check-error-reply|{kind_of(label)}",
-                                     "what": f"`{label}` answered with error: {err[-300:]}",
+                        viol.append({"signature": f"check-error-reply|{ctx(vi)}",
+                                     "what": f"well-formed `{label}` answered with error: {err[-300:]!r}; sequence {list(seq)} + probe",
                                      "detail": {"seq": list(seq), "reply": reply}})
                     else:
                         compare(label, reply)
@@ -675,15 +808,16 @@ def run_sequence(seq: tuple[str, ...], work: str, memo_dir: str, final: str = "s
                 # ... and a final stop must end it cleanly and leave no status file behind
                 try:
                     r = step(final)
-                    if "_noreply" in r or "error" in r:
-                        viol.append({"signature": "stop-not-acknowledged", "what": f"stop answered {r}",
-                                     "detail": {"seq": list(seq)}})
                 except Gone:
                     dead_report("stop")
                     return out  # (the finally block below still runs)
-                st = d.wait_exit()
-                if st is None:
-                    viol.append({"signature": "stop-ignored", "what": "daemon still running after an acknowledged stop",
+                if "_noreply" in r or "error" in r:
+                    viol.append({"signature": f"stop-not-acknowledged|{ctx(len(conn_labels) - 1)}",
+                                 "what": f"well-formed stop answered {str(r)[:200]}; sequence {list(seq)} + probe",
+                                 "detail": {"seq": list(seq), "reply": r}})
+                elif d.wait_exit_unless_idle() is None:
+                    viol.append({"signature": f"stop-ignored|{ctx(len(conn_labels) - 1)}",
+                                 "what": f"daemon acknowledged stop but keeps running; sequence {list(seq)} + probe",
                                  "detail": {"seq": list(seq)}})
                 else:
                     if os.path.exists(d.status_file):
@@ -699,9 +833,10 @@ def run_sequence(seq: tuple[str, ...], work: str, memo_dir: str, final: str = "s
         # Deterministic accounting: only what the daemon really accepted and served counts (a
         # connection queued behind a dying daemon may or may not get in, depending on timing).
         acc = d.accepts()
-        out["served"] = acc
-        out["outcomes"] = out["outcomes"][:acc]
-        out["states"] = [list(x) for x in out["states"][: acc + 1]]
+        plan_served = [i for i in range(min(acc, len(conn_labels))) if not conn_extra[i]]
+        out["served"] = len(plan_served)
+        out["outcomes"] = [out["outcomes"][i] for i in plan_served if i < len(out["outcomes"])]
+        out["states"] = [list(x) for x in out["states"][: len(plan_served) + 1]]
         if out["died"]:
             out["states"].append(["dead"])
         out["check_outputs"] = sorted(set(out["check_outputs"]))
@@ -717,6 +852,8 @@ def describe(label: str) -> str:
         return f"close after {label[6:]} of {len(PARTIAL_OF)} bytes of a valid status request"
     if label in MALFORMED:
         return MALFORMED[label][1]
+    if label in TRAILING:
+        return TRAILING[label][1]
     return {
         "connect-close": "connect, send nothing, close",
         "oversized-header": "length header 0x7fffffff, a few bytes, close",
